@@ -129,6 +129,7 @@ type Path struct {
 	curFrame *Frame
 	clockFree bool
 	concRand bool
+	shuffleReal bool
 	timerOf  map[*Value]*VTimer
 }
 
@@ -783,6 +784,9 @@ func (p *Path) run(entry *ssa.Function) (res *PathResult) {
 }
 
 func (p *Path) makeWitness() {
+	if p.shuffleReal {
+		return // math/rand's global source cannot be scripted natively: no per-path witness replay in this mode
+	}
 	if !p.eng.wantWitness(p.res) {
 		return
 	}
